@@ -50,7 +50,10 @@ MUTABLE_T = re.compile(r"^(builtins\.)?(list|dict|set|bytearray)\[|^(builtins\.)
 IMMUTABLE_T = re.compile(r"^immutables\.|^(builtins\.)?(tuple|frozenset|str|int|float|bool|bytes)\b|^tuple\[|^frozenset\[|^Tuple\[")
 # observers / infrastructure: their own mutable state is by design and lives outside SimulationState
 OBSERVER_DIRS = (PKG + "/reporting/", PKG + "/runner/", PKG + "/app/", PKG + "/config/", PKG + "/resources/", PKG + "/util/fs.py", PKG + "/util/iterators.py", PKG + "/initialization/",
-                 PKG + "/model/roadnetwork/osm/", PKG + "/util/rust.py", PKG + "/model/vehicle/mechatronics/powercurve/", PKG + "/model/vehicle/mechatronics/powertrain/",
+                 PKG + "/model/roadnetwork/osm/", PKG + "/util/rust.py",
+                 # construction-time builders (read a configuration dict while the environment is assembled); the curve / powertrain
+                 # classes themselves run inside the step (charge, energy_cost) and ARE scanned
+                 PKG + "/model/vehicle/mechatronics/powercurve/__init__.py", PKG + "/model/vehicle/mechatronics/powertrain/__init__.py",
                  PKG + "/model/roadnetwork/geofence.py", PKG + "/model/roadnetwork/haversine_roadnetwork.py", PKG + "/util/exception.py")
 
 
